@@ -74,13 +74,131 @@ def collect(tier, extra_families=()):
     return entries, stats
 
 
+ODD_REFS = ["fx.New[int string]", "fx.NewA[int]", "fx.New A", "fx.NewA()", "fx..NewA", "fx.NewA.", "fx.New-A", "fx.NewA[", "*fx.NewA", "&fx.NewA",
+            "fx.NewA{}", "fx/.NewA", "fx.NewA // x", "func() {}", "fx.NewA; panic(1)", "fx.NewA\n", "fx.NewA[T any]", "fx.NewA[[]int]", "(fx.NewA)"]
+ODD_VALUES = ["fx.Var[0]", "fx.Var()", "&fx.S{a: 1}", "fx.S{}.X", "&fx.S{}{}", "fx.Var.", "fx.Var[int]", "&&fx.Var", "fx.S[int]{}", "new(fx.S)"]
+ODD_TYPES = ["*fx.T[int]", "[]fx.T", "map[string]fx.T", "fx.T{}", "**fx.T", "fx.T[int string]", "*fx.T // x", "func()", "chan fx.T", "fx.T.U"]
+ODD_NAMES = ["Set X", "SetX()", "SetX[int]", "Set-X", "SetX.Y", "1SetX", "SetX\n", "SetX // c", "Set(X)", ""]
+
+
+def odd_documents():
+    """configurations with one malformed or almost-valid reference / name in every position that holds Go text, and the grammar
+    defect classes of C11: whatever the verdict is, it must not depend on the mode"""
+    from . import grammar
+    docs = []
+
+    def base():
+        return {"meta": {"imports": {"fx": "probe.test/fx"}, "functions": {"fn": "fx.Fn"}}, "parameters": {"p": "%fn()%"},
+                "services": {"s": {"constructor": "fx.NewA", "tags": ["t"]}}, "decorators": [{"tag": "t", "decorator": "fx.Decorate"}]}
+    for r in ODD_REFS:
+        for where in ("constructor", "decorator", "function"):
+            d = base()
+            if where == "constructor":
+                d["services"]["s"]["constructor"] = r
+            elif where == "decorator":
+                d["decorators"][0]["decorator"] = r
+            else:
+                d["meta"]["functions"]["fn"] = r
+            docs.append(("odd-" + where, d))
+    for x in ODD_VALUES:
+        d = base()
+        d["services"]["s"] = {"value": x}
+        docs.append(("odd-value", d))
+        d = base()
+        d["services"]["s"]["arguments"] = ["!value " + x]
+        docs.append(("odd-value-argument", d))
+    for x in ODD_TYPES:
+        for g in (True, False):
+            d = base()
+            d["services"]["s"]["type"] = x
+            if g:
+                d["services"]["s"]["getter"] = "GetS"
+            docs.append(("odd-type", d))
+    for x in ODD_NAMES:
+        d = base()
+        d["services"]["s"]["calls"] = [[x, [1]]]
+        docs.append(("odd-method", d))
+        d = base()
+        d["services"]["s"]["calls"] = [[x, [1], True]]
+        docs.append(("odd-wither", d))
+        d = base()
+        d["services"]["s"]["fields"] = {x: 1}
+        docs.append(("odd-field", d))
+        d = base()
+        d["services"]["s"]["getter"] = x
+        d["services"]["s"]["type"] = "*fx.T"
+        docs.append(("odd-getter", d))
+        for k in ("pkg", "container_type", "container_constructor"):
+            d = base()
+            d["meta"][k] = x
+            docs.append(("odd-meta-" + k, d))
+    for kind in sorted(grammar.DEFECTS):
+        d = grammar.base_doc()
+        grammar.DEFECTS[kind][0](d)
+        docs.append(("grammar-" + kind, d))
+    return docs
+
+
+def makefile_workflow(v, wd):
+    """the project's own use of the two modes: `make self-compile` and `make generate-stub` (Makefile) with the tool built from the
+    tree on PATH, in a scratch copy of the tree: equal verdicts, the stub declares the API of the real wiring"""
+    import re
+    import subprocess
+    if shutil.which("make") is None:
+        return {"skipped": "make not installed"}
+    tree = os.path.join(wd, "mk-tree")
+    shutil.copytree(core.REPO, tree, ignore=shutil.ignore_patterns(".git"))
+    bindir = os.path.join(wd, "mk-bin")
+    os.makedirs(bindir)
+    core.sh(["go", "build", "-o", os.path.join(bindir, "gontainer"), "."], cwd=tree)
+    env = dict(os.environ, PATH=bindir + os.pathsep + os.environ.get("PATH", ""))
+    res = {}
+    for target in ("self-compile", "generate-stub"):
+        p = subprocess.run(["make", target], cwd=tree, env=env, stdout=subprocess.PIPE, stderr=subprocess.STDOUT, timeout=300)
+        res[target] = {"rc": p.returncode, "out": p.stdout.decode("utf8", "replace")[-700:]}
+    case = {"commands": "make self-compile; make generate-stub (scratch copy of the tree, tool built from it)"}
+    if (res["self-compile"]["rc"] == 0) != (res["generate-stub"]["rc"] == 0):
+        v.disagree("verdict-differs-between-modes", case, res, tags={"family": "makefile"})
+        return {"targets": {k: x["rc"] for k, x in res.items()}}
+    if res["self-compile"]["rc"] != 0:
+        v.disagree("makefile-targets-fail", case, res, tags={"family": "makefile"})
+        return {"targets": {k: x["rc"] for k, x in res.items()}}
+
+    def surface(path):
+        src = open(path).read()
+        ms = set()
+        for recv, name, params, results in re.findall(r"(?m)^func \(\w+ \*(\w+)\) ([A-Z]\w*)\(([^)]*)\) ?(\([^)]*\)|[^ {]*)", src):
+            # result names are not part of a signature
+            results = ", ".join(x.strip().split(" ")[-1] for x in results.strip("()").split(",") if x.strip())
+            params = ", ".join(x.strip().split(" ")[-1] for x in params.split(",") if x.strip())
+            ms.add((recv, name, params, results))
+        return {"package": re.findall(r"(?m)^package (\w+)", src)[:1],
+                "methods": sorted(ms),
+                "funcs": sorted(set(re.findall(r"(?m)^func ([A-Z]\w*)\(", src))),
+                "constraint": "//go:build gontainerstub" in src[:300]}
+    n = surface(os.path.join(tree, "internal/gontainer/gontainer.go"))
+    st = surface(os.path.join(tree, "internal/gontainer/stub.go"))
+    if not st["constraint"]:
+        v.disagree("stub-build-constraint-missing", case, {"file": "internal/gontainer/stub.go"}, tags={"family": "makefile"})
+    if (n["package"], n["methods"], n["funcs"]) != (st["package"], st["methods"], st["funcs"]):
+        v.disagree("api-differs", case, {"only_normal": [m for m in n["methods"] if m not in st["methods"]][:8],
+                                         "only_stub": [m for m in st["methods"] if m not in n["methods"]][:8],
+                                         "funcs": [n["funcs"], st["funcs"]], "package": [n["package"], st["package"]]}, tags={"family": "makefile"})
+    # the stub alone (the real wiring absent, as when bootstrapping) must be enough to compile the tool
+    os.remove(os.path.join(tree, "internal/gontainer/gontainer.go"))
+    pb = core.sh(["go", "build", "-tags", "gontainerstub", "./..."], cwd=tree, check=False)
+    if pb.returncode != 0:
+        v.disagree("stub-does-not-compile", case, {"compiler": pb.stdout[-800:]}, tags={"family": "makefile"})
+    return {"targets": {k: x["rc"] for k, x in res.items()}, "methods_compared": len(n["methods"])}
+
+
 def generate_both(entries, rng, wd):
     pool = core.DriverPool()
     jobs = []
     for e in entries:
         d = os.path.join(wd, "in", e["name"])
         os.makedirs(d, exist_ok=True)
-        yamls = [concretise.to_yaml(fc, rng) for fc in e["files"]]
+        yamls = e["raw"] if e.get("raw") else [concretise.to_yaml(fc, rng) for fc in e["files"]]
         e["yaml"] = "\n--- next file ---\n".join(yamls)
         ins = []
         for k, y in enumerate(yamls):
@@ -155,6 +273,12 @@ def run(pid, tier):
     if pid == "C17":     # rejected configurations as well: the verdict must not depend on the mode
         extra = list(extra) + [("N", "MC_Deps.tla", "MC_Deps_N.cfg", 1), ("X", "MC_Deps.tla", "MC_Deps_X.cfg", 1)]
     entries, stats = collect(tier, extra)
+    n_odd = 0
+    if pid == "C17":
+        for label, doc in odd_documents():
+            entries.append({"raw": [concretise.emit(doc, rng) + "\n"], "cfg": None, "files": [], "model_accepts": None, "family": label,
+                            "name": "c%05d" % len(entries)})
+            n_odd += 1
     generate_both(entries, rng, wd)
     n_acc = n_rej = 0
     # ---- verdicts
@@ -170,7 +294,7 @@ def run(pid, tier):
             v.disagree("verdict-differs-between-modes", {"yaml": e["yaml"]},
                        {"normal": e["normal"]["exit"], "stub": e["stub"]["exit"],
                         "errors": core.Report(e["normal"]["stdout"] if e["normal"]["exit"] else e["stub"]["stdout"]).errors[:4]})
-    ok_entries = [e for e in entries if e["normal"]["exit"] == 0 and e["stub"]["exit"] == 0]
+    ok_entries = [e for e in entries if e["normal"]["exit"] == 0 and e["stub"]["exit"] == 0 and not e.get("raw")]
     # ---- gofmt
     paths = []
     for e in ok_entries:
@@ -246,6 +370,7 @@ def run(pid, tier):
                 v.disagree("stub-getter-does-not-panic", {"yaml": e["yaml"]}, {"methods": notp})
                 continue
             n_checked += 1
+    mk = makefile_workflow(v, wd) if pid == "C17" else None
     shutil.rmtree(wd, ignore_errors=True)
     if not v.violations and (n_acc < 20 or n_checked < 0.5 * len(ok_entries)):
         raise core.InfraError("degenerate exploration: accepted=%d checked=%d of %d" % (n_acc, n_checked, len(ok_entries)))
@@ -262,13 +387,15 @@ def run(pid, tier):
         level, rule = "exploration", (
             "the same model-generated configurations, each in both modes: equal accept/reject; stub carries the build constraint, builds "
             "with -tags gontainerstub against a types-only copy of the fixture universe, has the same package, type, constructor and "
-            "exported method set (reflection) as the normal output, and its constructor and every generated method panic; non-trivial = "
-            "accepted in both modes")
+            "exported method set (reflection) as the normal output, and its constructor and every generated method panic; plus documents "
+            "with one malformed or almost-valid piece of Go text in every position that holds one and the grammar defect classes "
+            "(equal verdicts only); plus the Makefile targets self-compile / generate-stub run with the tool built from the tree; "
+            "non-trivial = accepted in both modes")
     core.write_evidence(pid, tier, level, {
         "evaluations": 2 * len(entries), "distinct_nontrivial": len(ok_entries), "rule": rule,
         "samples": [{"yaml": sample["yaml"], "family": sample["family"]}],
         "states": sum(s["tlc_states"] for s in stats), "transitions": sum(s["tlc_generated"] for s in stats),
-        "families": stats, "tool_accepts": n_acc, "tool_rejects": n_rej, "checked_in_both_modes": n_checked,
+        "families": stats, "odd_reference_documents": n_odd, "makefile_workflow": mk, "tool_accepts": n_acc, "tool_rejects": n_rej, "checked_in_both_modes": n_checked,
         "known_findings_hit": {k: n for k, (f, n) in v.known_hit.items()},
     }, time.time() - t0, violations=len(v.violations), assumptions=[
         "the typing judgment is the Go compiler's; the specification decides which configurations must be accepted and what their API is",
